@@ -68,7 +68,7 @@ struct Hideset {
 static HashMap macros;
 static CondIncl *cond_incl;
 static HashMap pragma_once;
-static int include_next_idx;
+static HashMap include_dir_idx; // path -> 1 + index of the include path it was found in
 
 static Token *preprocess2(Token *tok);
 static Macro *find_macro(Token *tok);
@@ -746,17 +746,21 @@ char *search_include_paths(char *filename) {
     if (!file_exists(path))
       continue;
     hashmap_put(&cache, filename, path);
-    include_next_idx = i + 1;
+    hashmap_put(&include_dir_idx, path, (void *)(long)(i + 1));
     return path;
   }
   return NULL;
 }
 
-static char *search_include_next(char *filename) {
-  for (; include_next_idx < include_paths.len; include_next_idx++) {
-    char *path = format("%s/%s", include_paths.data[include_next_idx], filename);
-    if (file_exists(path))
-      return path;
+// Search the include paths that follow the one in which the current
+// file `cur` was found (all of them if it was not found through them).
+static char *search_include_next(char *filename, char *cur) {
+  for (int i = (long)hashmap_get(&include_dir_idx, cur); i < include_paths.len; i++) {
+    char *path = format("%s/%s", include_paths.data[i], filename);
+    if (!file_exists(path))
+      continue;
+    hashmap_put(&include_dir_idx, path, (void *)(long)(i + 1));
+    return path;
   }
   return NULL;
 }
@@ -932,7 +936,7 @@ static Token *preprocess2(Token *tok) {
     if (equal(tok, "include_next")) {
       bool ignore;
       char *filename = read_include_filename(&tok, tok->next, &ignore);
-      char *path = search_include_next(filename);
+      char *path = search_include_next(filename, start->file->name);
       tok = include_file(tok, path ? path : filename, start->next->next);
       continue;
     }
